@@ -24,16 +24,6 @@ Inductive json : Type :=
 | JArr (l : list json)
 | JObj (l : list (key * json)).
 
-Section OptList.
-  Context {A B : Type}.
-  Variable f : A -> option B.
-  Fixpoint mapO (l : list A) : option (list B) :=
-    match l with
-    | [] => Some []
-    | a :: l' => match f a, mapO l' with Some b, Some bs => Some (b :: bs) | _, _ => None end
-    end.
-End OptList.
-
 Section OptZip.
   Context {A B C : Type}.
   Variable f : A -> B -> option C.
